@@ -13,7 +13,8 @@ import (
 
 // TaxIdFacts: regex pattern strings, weight tables, letter tables, prefix
 // sets, the literals and operators of every function of the tax-identity
-// validators / normalisers, and which regimes register a Normalizer —
+// validators / normalisers, the top-level statements of every normaliser in
+// source order, and which regimes register a Normalizer —
 // regenerated from the Go source (go/ast) on every run.
 
 type taxidFile struct {
@@ -180,6 +181,19 @@ func litsAndOps(fd *ast.FuncDecl) (lits, ops []string) {
 	return
 }
 
+// topStmts lists the top-level statements of a function body, in source order, as
+// whitespace-normalised source text (comments are not part of a statement's text).
+func topStmts(fset *token.FileSet, fd *ast.FuncDecl) []string {
+	out := []string{}
+	if fd == nil || fd.Body == nil {
+		return out
+	}
+	for _, st := range fd.Body.List {
+		out = append(out, nodeText(fset, st))
+	}
+	return out
+}
+
 func funcName(fd *ast.FuncDecl) string {
 	name := fd.Name.Name
 	if fd.Recv != nil && len(fd.Recv.List) > 0 {
@@ -200,7 +214,7 @@ func init() {
 		var sb strings.Builder
 		sb.WriteString("/- REGENERATED by harness/cmd/extract from /repo/tax/identity.go, /repo/regimes/*/tax_identity.go, tax_code.go, common/luhn.go — do not edit -/\nnamespace GoblVerif.Generated.TaxId\n\n")
 		for _, tf := range taxidFiles {
-			_, f, err := parseFile(tf.rel)
+			fset, f, err := parseFile(tf.rel)
 			if err != nil {
 				return name, "", err
 			}
@@ -329,6 +343,11 @@ func init() {
 				sb.WriteString(fmt.Sprintf("def %s_lits_%s : List String := %s\n", tf.tag, fn, leanStrList(lits)))
 				sb.WriteString(fmt.Sprintf("def %s_ops_%s : List String := %s\n", tf.tag, fn, leanStrList(ops)))
 				sb.WriteString(fmt.Sprintf("def %s_calls_%s : List String := %s\n", tf.tag, fn, leanStrList(methodCalls(fd))))
+				if strings.Contains(strings.ToLower(fd.Name.Name), "normalize") {
+					// the order of the steps matters where a normaliser also rewrites the country
+					// (GR sets it before cleaning the code, IN after)
+					sb.WriteString(fmt.Sprintf("def %s_steps_%s : List String := %s\n", tf.tag, fn, leanStrList(topStmts(fset, fd))))
+				}
 			}
 			sb.WriteString("\n")
 		}
